@@ -132,8 +132,12 @@ def ref_rate(kind, beta, kappa, tau, limit_sigma, gamma, teams, rankvals):
                     de += p * (1 - p) / A[q]
             omega[i] = om * ssq[i] / c
             omega_tol[i] = R * om_abs * ssq[i] / c
-            delta[i] = de * ssq[i] / c ** 2 * g(c, i)
-            delta_tol[i] = R * abs(delta[i])
+            gi = g(c, i)
+            delta[i] = de * ssq[i] / c ** 2 * gi
+            # backward-error form: p carries an ABSOLUTE rounding error of a few eps, which (1 - p) turns into a large
+            # relative error when p is within 1e-8 of 1 (a heavy favourite); invisible unless gamma is huge
+            nterms = sum(1 for q in range(k) if r[q] <= r[i])
+            delta_tol[i] = R * abs(delta[i]) + abs(gi) * ssq[i] / c ** 2 * 8 * EPS * nterms
     else:
         full = kind in ("BTF", "TMF")
         tm = kind in ("TMF", "TMP")
@@ -161,7 +165,9 @@ def ref_rate(kind, beta, kappa, tau, limit_sigma, gamma, teams, rankvals):
                     omt += R * ssq[i] / ciq * (s + p)
                     d = gam * ssq[i] / ciq ** 2 * p * (1 - p)
                     de += d
-                    det += R * abs(d)
+                    # R relative on the term + the absolute rounding of p (a few eps), which (1 - p) amplifies for a
+                    # heavy favourite; invisible unless gamma is huge
+                    det += R * abs(d) + abs(gam) * ssq[i] / ciq ** 2 * 8 * EPS
                 else:
                     x = (theta[i] - theta[q]) / ciq
                     t = kappa / ciq
